@@ -158,7 +158,8 @@ def r20_3(ctx: Ctx):
     # positive evidence of a wrong walk: one loop, over a part / another attribute of the deme; any other structure (several
     # loops, an explicit stack instead of recursion) is outside what this rule follows
     partial = len(loops) == 1 and isinstance(loops[0].iter, (ast.Subscript, ast.Attribute)) and norm(loops[0].iter).startswith(f"{ps[0]}.") and norm(loops[0].iter) != f"{ps[0]}.children"
-    obs.append(ctx.ob("R20.3", f, loops[0] if loops else f.node, status=OK if ok_loop else VIOLATION if (partial or not loops) else INCONCLUSIVE, detail="one loop over deme.children" if ok_loop else "children renderer does not iterate deme.children" if (partial or not loops) else "cannot follow how the children renderer walks the tree", construct="children-loop"))
+    delegates = any(isinstance(c, ast.Call) and isinstance(c.func, ast.Name) and c.func.id.startswith("_") for c in body_walk(f.node))
+    obs.append(ctx.ob("R20.3", f, loops[0] if loops else f.node, status=OK if ok_loop else VIOLATION if (partial or (not loops and not delegates)) else INCONCLUSIVE, detail="one loop over deme.children" if ok_loop else "children renderer does not iterate deme.children" if (partial or (not loops and not delegates)) else "cannot follow how the children renderer walks the tree", construct="children-loop"))
     if ok_loop:
         child = loops[0].target.id
         # normalised form: `if child.metaepoch_count != 0: <render>` (the early `continue` is inverted into this guard)
